@@ -653,8 +653,13 @@ impl CodegenContext {
 
                             let opts = BankOptions {
                                 name: name.clone(),
-                                size: extractor.try_get_i64(self, "size")?.map(|s| s as usize),
-                                fill: extractor.try_get_i64(self, "fill")?.map(|s| s as u8),
+                                // (a negative size would turn into an astronomically large one)
+                                size: extractor
+                                    .try_get_i64_in(self, "size", 0..=0x100_0000)?
+                                    .map(|s| s as usize),
+                                fill: extractor
+                                    .try_get_i64_in(self, "fill", -128..=255)?
+                                    .map(|s| s as u8),
                                 create_segment: extractor
                                     .try_get_i64(self, "create-segment")?
                                     .map(|s| s != 0)
